@@ -251,6 +251,23 @@ def closure_probes():
               "function f(p){ var x = 1; var bump = function(){ x += 5; x++; p += '!'; return [typeof x, typeof p, x, p]; }; var a = bump(); x += 1; var b = bump(); return [a, b, x, p]; } log(f('s'));"))
     P.append(("captured-var-in-loops",
               "function f(){ var acc = 1, fs = []; for (var i = 1; i <= 3; i++) { acc *= 3; fs.push(function(){ return acc; }); } acc -= 4; return [acc, fs[0](), fs[2](), typeof acc, typeof i]; } log(f());"))
+    # a variable mentioned by the inner function in exactly ONE syntactic role must still be captured by reference
+    roles = {
+        "computed-key": ("0", "2", "arr[V]"), "computed-key-object": ("'p'", "'q'", "obj[V]"), "literal-computed-key": ("'p'", "'q'", "Object.keys({[V]: 1})[0]"),
+        "shorthand-property": ("1", "2", "({V}).V"), "property-value": ("1", "2", "({k: V}).k"), "call-argument": ("1", "2", "id(V)"), "callee": ("one", "two", "V()"),
+        "member-object": ("obj", "obj2", "V.p"), "new-callee": ("K1", "K2", "new V().tag"), "unary": ("1", "2", "-V"), "typeof": ("1", "'s'", "typeof V"), "array-element": ("1", "2", "[V][0]"),
+        "condition": ("0", "1", "V ? 'T' : 'F'"), "logical": ("0", "5", "V || 'zero'"), "binary-right": ("1", "2", "10 + V"), "comparison": ("1", "5", "V > 3"),
+        "assignment-source": ("1", "2", "(tmp = V, tmp)"), "compound-source": ("1", "2", "(tmp = 10, tmp += V, tmp)"), "in-operand": ("'p'", "'zz'", "V in obj"),
+        "instanceof-rhs": ("K1", "K2", "(new K2()) instanceof V"), "spread-like-apply": ("[1]", "[1, 2]", "id.apply(null, V)"), "nested-call-arg": ("1", "2", "id(id([V])[0])"),
+        "template-concat": ("1", "2", "'' + V + ''"), "sequence": ("1", "2", "(0, V)"), "index-of-index": ("0", "1", "arr[[1, 2][V]]"), "delete-key": ("'p'", "'q'", "(function () { var c = {p: 1, q: 2}; delete c[V]; return Object.keys(c).join(); })()"),
+    }
+    for rn, (i1, i2, expr) in roles.items():
+        e = expr.replace("V", "vv")
+        for kind, mk in (("function", "function () { return %s; }"), ("arrow", "() => %s"), ("nested", "function () { return (function () { return %s; })(); }")):
+            P.append(("role-%s-%s" % (rn, kind),
+                      "function id(x) { return x; } function one() { return 1; } function two() { return 2; } function K1() { this.tag = 'k1'; } function K2() { this.tag = 'k2'; }\n"
+                      "function f() { var tmp, arr = [10, 20, 30], obj = {p: 'P', q: 'Q'}, obj2 = {p: 'P2'}; var vv = %s; var g = %s; var before = g(); vv = %s; return [before, g()]; } log(f());"
+                      % (i1, mk % e, i2)))
     P.append(("left-to-right",
               "function t(k){ log(k); return k; } var o = {m: function(a, b){ return a + b; }}; log(t(1) + t(2) * t(3), o.m(t(4), t(5)), [t(6), t(7)][t(0)], t(8) < t(9), (t(10), t(11)));"))
     P.append(("assignment-order",
